@@ -1,13 +1,17 @@
 package main
 
 import (
+	"context"
 	"encoding/binary"
+	"encoding/json"
 	"flag"
 	"fmt"
 	"io"
 	"math/rand"
 	"net"
 	"sync"
+	"sync/atomic"
+	"syscall"
 	"time"
 
 	"github.com/TarsCloud/TarsGo/tars/protocol"
@@ -135,17 +139,52 @@ func ccHook(point string, a ...interface{}) {
 	}
 }
 
-// harness server: answers every request, closes connections on command
+// harness server: answers every request, closes connections on command, can stop listening and come back on the same port
 type ccServer struct {
-	ln    net.Listener
-	mu    sync.Mutex
-	conns map[int]net.Conn // by k
-	delay map[int]time.Duration // request -> how long the server takes to answer it
+	ln      net.Listener
+	addr    *net.TCPAddr
+	reserve int // a bound, non-listening socket that keeps the port ours while the listener is closed (-1: none)
+	mu      sync.Mutex
+	down    bool
+	conns   map[int]net.Conn // by k
+	delay   map[int]time.Duration // request -> how long the server takes to answer it
 }
 
-func (s *ccServer) serve() {
+const soReusePort = 0xf // SO_REUSEPORT (linux)
+
+func ccListen(addr string) (net.Listener, error) {
+	lc := net.ListenConfig{Control: func(network, address string, c syscall.RawConn) error {
+		var e error
+		if err := c.Control(func(fd uintptr) { e = syscall.SetsockoptInt(int(fd), syscall.SOL_SOCKET, soReusePort, 1) }); err != nil {
+			return err
+		}
+		return e
+	}}
+	return lc.Listen(context.Background(), "tcp", addr)
+}
+
+func newCCServer() *ccServer {
+	ln, err := ccListen("127.0.0.1:0")
+	if err != nil {
+		panic(err)
+	}
+	s := &ccServer{ln: ln, addr: ln.Addr().(*net.TCPAddr), reserve: -1, conns: map[int]net.Conn{}, delay: map[int]time.Duration{}}
+	// no other process can be given this port while the listener is closed (connections to it are refused meanwhile)
+	if fd, err := syscall.Socket(syscall.AF_INET, syscall.SOCK_STREAM, 0); err == nil {
+		sa := &syscall.SockaddrInet4{Port: s.addr.Port, Addr: [4]byte{127, 0, 0, 1}}
+		if syscall.SetsockoptInt(fd, syscall.SOL_SOCKET, soReusePort, 1) == nil && syscall.Bind(fd, sa) == nil {
+			s.reserve = fd
+		} else {
+			syscall.Close(fd)
+		}
+	}
+	go s.serve(ln)
+	return s
+}
+
+func (s *ccServer) serve(ln net.Listener) {
 	for {
-		c, err := s.ln.Accept()
+		c, err := ln.Accept()
 		if err != nil {
 			return
 		}
@@ -161,6 +200,11 @@ func (s *ccServer) serve() {
 				}
 			}
 			s.mu.Lock()
+			if s.down { // accepted while the server was going down: gone with it
+				s.mu.Unlock()
+				c.Close()
+				return
+			}
 			s.conns[k] = c
 			s.mu.Unlock()
 			hdr := make([]byte, 4)
@@ -176,16 +220,27 @@ func (s *ccServer) serve() {
 				cc.mu.Lock()
 				rec := cc.rec
 				cc.mu.Unlock()
-				s.mu.Lock()
-				d := s.delay[r]
-				s.mu.Unlock()
 				rsp := append(append([]byte{}, hdr...), body...)
+				// receiving, answering and closing are serialised (s.mu), so that the recorded order is the real one: a request
+				// read after the scenario has closed the connection was in flight and is gone with it
+				s.mu.Lock()
+				if s.conns[k] != c {
+					s.mu.Unlock()
+					return
+				}
+				d := s.delay[r]
 				if rec != nil {
 					rec.Emit("SrvRecv", "k", k, "r", r)
 				}
 				if d > 0 { // a slow answer: the connection keeps being read meanwhile
+					s.mu.Unlock()
 					go func() {
 						time.Sleep(d)
+						s.mu.Lock()
+						defer s.mu.Unlock()
+						if s.conns[k] != c {
+							return
+						}
 						if rec != nil {
 							rec.Emit("SrvReply", "k", k, "r", r)
 						}
@@ -197,38 +252,196 @@ func (s *ccServer) serve() {
 					rec.Emit("SrvReply", "k", k, "r", r)
 				}
 				c.Write(rsp)
+				s.mu.Unlock()
 			}
 		}(c)
 	}
 }
 
-func ccScenario(rng *rand.Rand, timeout time.Duration) []tr.Ev {
-	rec := tr.New()
-	ln, err := net.Listen("tcp", "127.0.0.1:0")
-	if err != nil {
-		panic(err)
+const ccSettle = 15 * time.Millisecond
+
+// closeConn closes connection k of the server (0: the newest); abortive = RST instead of FIN (a killed or restarted server)
+func (s *ccServer) closeConn(rec *tr.Rec, k int, abortive bool) int {
+	s.mu.Lock()
+	defer s.mu.Unlock()
+	if k == 0 {
+		for kk := range s.conns {
+			if kk > k {
+				k = kk
+			}
+		}
 	}
-	srv := &ccServer{ln: ln, conns: map[int]net.Conn{}, delay: map[int]time.Duration{}}
-	go srv.serve()
-	client := transport.NewTarsClient(ln.Addr().String(), ccProto{}, &transport.TarsClientConf{Proto: "tcp", QueueLen: 100,
+	c := s.conns[k]
+	delete(s.conns, k)
+	if c == nil {
+		return 0
+	}
+	rec.Emit("SrvClose", "k", k)
+	if tc, ok := c.(*net.TCPConn); ok && abortive {
+		tc.SetLinger(0)
+	}
+	c.Close()
+	return k
+}
+
+// stop = the server goes away: listener and every connection closed; the endpoint refuses connections from SrvDown on
+func (s *ccServer) stop(rec *tr.Rec, rng *rand.Rand) {
+	rec.Emit("SrvStopping")
+	s.mu.Lock()
+	s.down = true
+	var ks []int
+	for k := range s.conns {
+		ks = append(ks, k)
+	}
+	s.mu.Unlock()
+	lnFirst := rng.Intn(2) == 0
+	if lnFirst {
+		s.ln.Close()
+	}
+	for _, k := range ks {
+		s.closeConn(rec, k, rng.Intn(2) == 0)
+	}
+	if !lnFirst {
+		s.ln.Close()
+	}
+	time.Sleep(ccSettle)
+	rec.Emit("SrvDown")
+}
+
+// start = the listener comes back on the same port
+func (s *ccServer) start(rec *tr.Rec) bool {
+	rec.Emit("SrvStarting")
+	var ln net.Listener
+	var err error
+	for i := 0; i < 200; i++ {
+		if ln, err = ccListen(s.addr.String()); err == nil {
+			break
+		}
+		time.Sleep(5 * time.Millisecond)
+	}
+	if err != nil {
+		return false
+	}
+	s.mu.Lock()
+	s.ln, s.down = ln, false
+	s.mu.Unlock()
+	go s.serve(ln)
+	time.Sleep(ccSettle)
+	rec.Emit("SrvUp")
+	return true
+}
+
+func (s *ccServer) shutdown() {
+	s.mu.Lock()
+	s.down = true
+	s.ln.Close()
+	for _, c := range s.conns {
+		c.Close()
+	}
+	s.mu.Unlock()
+	if s.reserve >= 0 {
+		syscall.Close(s.reserve)
+	}
+}
+
+// scheduling canary: by how much 2 ms sleeps overran during the scenario (longest overrun; sum of the overruns of 10 ms and
+// more).  A call that timed out while the machine stalled for a sizeable part of its timeout says nothing about "without
+// waiting for its timeout": the run is dropped (and counted).
+type ccCanary struct {
+	stop chan struct{}
+	max  int64 // ns
+	sum  int64 // ns
+}
+
+func startCanary() *ccCanary {
+	c := &ccCanary{stop: make(chan struct{})}
+	go func() {
+		for {
+			select {
+			case <-c.stop:
+				return
+			default:
+			}
+			t0 := time.Now()
+			time.Sleep(2 * time.Millisecond)
+			over := int64(time.Since(t0) - 2*time.Millisecond)
+			if over > atomic.LoadInt64(&c.max) {
+				atomic.StoreInt64(&c.max, over)
+			}
+			if over >= int64(10*time.Millisecond) {
+				atomic.AddInt64(&c.sum, over)
+			}
+		}
+	}()
+	return c
+}
+
+var ccClasses = []string{"restart", "heldrecv", "handover", "random", "random", "overlap", "doubleclose", "random"}
+
+type ccStats struct {
+	Classes   map[string]int `json:"classes"`
+	Dropped   int            `json:"dropped_disturbed"`
+	Abandoned int            `json:"abandoned_relisten"`
+	MaxStall  int            `json:"max_stall_ms"`
+	Handovers int            `json:"handovers"`
+	SendErrs  int            `json:"send_errors"`
+	ShortTO   int            `json:"scenarios_with_short_timeout"`
+}
+
+var ccSt = ccStats{Classes: map[string]int{}}
+
+// ccScenario runs scenario number idx; longTO is the call timeout of the scenarios that do not use a short one
+func ccScenario(rng *rand.Rand, idx int, longTO time.Duration, only string) []tr.Ev {
+	rec := tr.New()
+	srv := newCCServer()
+	client := transport.NewTarsClient(srv.addr.String(), ccProto{}, &transport.TarsClientConf{Proto: "tcp", QueueLen: 100,
 		IdleTimeout: time.Hour, ReadTimeout: 100 * time.Millisecond, DialTimeout: time.Second})
+	class := ccClasses[idx%len(ccClasses)]
+	if only != "" {
+		class = only
+	}
+	// "without waiting for its timeout" holds for any timeout: part of the scenarios use one below the sender's 1 s ticker period
+	// (every intended delay of a scenario is below 200 ms)
+	timeout := longTO
+	// (overlap and doubleclose delay answers and senders by up to 150 ms on purpose and keep the long timeout)
+	if class == "handover" || class == "restart" || class == "heldrecv" || (class == "random" && rng.Intn(2) == 0) {
+		timeout = time.Duration([]int{600, 700, 800}[rng.Intn(3)]) * time.Millisecond
+	}
 	cc.mu.Lock()
 	cc.rec, cc.client, cc.conns, cc.nconn, cc.replies = rec, client, map[string]int{}, 0, map[int]chan struct{}{}
 	cc.delays, cc.delayK = map[string]time.Duration{}, 0
 	// schedule perturbation for this scenario
 	points := []string{"client.send.writeError", "client.send.requeued", "client.send.pollFail", "client.send.beforeSelect", "client.send.top",
 		"client.recv.readError", "client.recv.exit", "client.close", "client.send.dequeued"}
-	switch rng.Intn(4) {
-	case 0: // none
-	case 1: // the old sender is slow to requeue: the new sender is parked before the failed request reappears
-		cc.delays["client.send.writeError"] = time.Duration(2+rng.Intn(10)) * time.Millisecond
-	default:
-		for n := 1 + rng.Intn(2); n > 0; n-- {
-			cc.delays[points[rng.Intn(len(points))]] = time.Duration(1+rng.Intn(8)) * time.Millisecond
+	if class == "random" {
+		switch rng.Intn(4) {
+		case 0: // none
+		case 1: // the old sender is slow to requeue: the new sender is parked before the failed request reappears
+			cc.delays["client.send.writeError"] = time.Duration(2+rng.Intn(10)) * time.Millisecond
+		default:
+			for n := 1 + rng.Intn(2); n > 0; n-- {
+				cc.delays[points[rng.Intn(len(points))]] = time.Duration(1+rng.Intn(8)) * time.Millisecond
+			}
+			if rng.Intn(3) == 0 {
+				// one goroutine is not scheduled for a long while (longer than most gaps between the calls).  A request may pass the
+				// held point a few times (old sender, new sender, once more after a write error): the sum stays far below the timeout
+				d := 40 + rng.Intn(100)
+				if timeout < time.Second {
+					d = 40 + rng.Intn(50)
+				}
+				cc.delays[points[rng.Intn(len(points))]] = time.Duration(d) * time.Millisecond
+			}
+			cc.delayK = rng.Intn(3) // 0 = every connection
 		}
-		cc.delayK = rng.Intn(3) // 0 = every connection
 	}
 	cc.mu.Unlock()
+	canary := startCanary()
+	setDelays := func(k int, d map[string]time.Duration) {
+		cc.mu.Lock()
+		cc.delays, cc.delayK = d, k
+		cc.mu.Unlock()
+	}
+	disturbed := false // a call timed out while the machine stalled for more than a fifth of the timeout
 	call := func(r int) bool {
 		ch := make(chan struct{})
 		cc.mu.Lock()
@@ -239,38 +452,153 @@ func ccScenario(rng *rand.Rand, timeout time.Duration) []tr.Ev {
 		binary.BigEndian.PutUint32(p[4:], uint32(r))
 		rec.Emit("CallStart", "r", r)
 		t0 := time.Now()
-		ok := false
+		stall0 := atomic.LoadInt64(&canary.sum)
+		ok, timedOut := false, false
 		if err := client.Send(p); err == nil {
 			select {
 			case <-ch:
 				ok = true
 			case <-time.After(timeout):
+				timedOut = true
+			}
+		} else {
+			rec.Emit("SendErr", "r", r, "err", err.Error()) // ReConnect's error: the dial failed (or a failed dial was shared)
+		}
+		rec.Emit("CallEnd", "r", r, "ok", ok, "ms", int(time.Since(t0).Milliseconds()), "to", int(timeout.Milliseconds()))
+		if timedOut {
+			time.Sleep(3 * time.Millisecond) // let the canary finish the sleep it is in
+			if time.Duration(atomic.LoadInt64(&canary.sum)-stall0) > timeout/5 {
+				cc.mu.Lock()
+				disturbed = true
+				cc.mu.Unlock()
 			}
 		}
-		rec.Emit("CallEnd", "r", r, "ok", ok, "ms", int(time.Since(t0).Milliseconds()))
 		return ok
 	}
-	closeNewest := func() {
-		srv.mu.Lock()
-		k := 0
-		for kk := range srv.conns {
-			if kk > k {
-				k = kk
-			}
-		}
-		c := srv.conns[k]
-		delete(srv.conns, k)
-		srv.mu.Unlock()
-		if c != nil {
-			rec.Emit("SrvClose", "k", k)
-			if tc, ok := c.(*net.TCPConn); ok && rng.Intn(2) == 0 {
-				tc.SetLinger(0) // abortive close: RST instead of FIN (a killed or restarted server)
-			}
-			c.Close()
-		}
+	bg := func(r int) chan struct{} {
+		done := make(chan struct{})
+		go func() { call(r); close(done) }()
+		return done
 	}
+	ms := func(n int) { time.Sleep(time.Duration(n) * time.Millisecond) }
+	closeNewest := func() { srv.closeConn(rec, 0, rng.Intn(2) == 0) }
+	gaps := []int{0, 1, 5, 30, 200, 1100}
+	abandoned := false
 	r := 0
-	if rng.Intn(4) == 0 {
+	switch class {
+	case "restart":
+		// the server goes away (connections and listener closed) and comes back on the same port; calls made while the endpoint
+		// refuses connections may fail (the premise does not hold for them); every call issued once it listens again and the
+		// client has seen the closes must succeed, without waiting for its timeout
+		for cycle, ncyc := 0, 1+rng.Intn(2); cycle < ncyc && r+4 <= 8 && !abandoned; cycle++ {
+			r++
+			call(r)
+			if cycle == 0 && rng.Intn(4) == 0 { // an idle close before the restart: the restart then finds the client without a connection
+				closeNewest()
+				ms(gaps[rng.Intn(4)])
+			}
+			srv.stop(rec, rng)
+			ms([]int{0, 1, 5, 30}[rng.Intn(4)])
+			switch rng.Intn(4) {
+			case 0: // nobody calls during the downtime
+			case 1, 2:
+				r++
+				call(r)
+			case 3: // two callers at once: the second may be queued behind the first one's failing dial
+				d1, d2 := bg(r+1), bg(r+2)
+				r += 2
+				<-d1
+				<-d2
+			}
+			ms([]int{0, 5, 50}[rng.Intn(3)])
+			if !srv.start(rec) {
+				abandoned = true
+				break
+			}
+			ms(gaps[rng.Intn(len(gaps))])
+			r++
+			call(r)
+		}
+		if !abandoned && r < 8 && rng.Intn(2) == 0 {
+			r++
+			call(r)
+		}
+	case "heldrecv":
+		// the receiver of connection 1 is slow to report the loss (held at its read-error hook, or after close() at its exit hook,
+		// for longer than the rest of the scenario takes): the sender notices first (failed write), the next call dials connection 2,
+		// which the server closes as well (or the server restarts); only then the receiver of connection 1 reports
+		pt := "client.recv.readError#1"
+		if rng.Intn(4) == 0 {
+			pt = "client.recv.exit#1"
+		}
+		hold := time.Duration(90+rng.Intn(80)) * time.Millisecond
+		call(1)
+		setDelays(0, map[string]time.Duration{pt: hold})
+		t0 := time.Now()
+		srv.closeConn(rec, 0, rng.Intn(4) != 0) // mostly RST: the next write fails at once
+		ms(3 + rng.Intn(5))
+		d2 := bg(2) // races with a close the client has not seen yet (exempt); its failed write makes the sender close connection 1
+		ms(10 + rng.Intn(10))
+		call(3) // issued after the sender's close
+		<-d2
+		switch rng.Intn(3) {
+		case 0, 1:
+			closeNewest() // connection 2: its receiver reports at once
+		case 2:
+			srv.stop(rec, rng)
+			r = 4
+			call(r) // while the endpoint refuses connections
+			if !srv.start(rec) {
+				abandoned = true
+			}
+		}
+		if !abandoned {
+			if rng.Intn(3) != 0 { // usually wait until the receiver of connection 1 has reported at last
+				if rest := hold + 25*time.Millisecond - time.Since(t0); rest > 0 {
+					time.Sleep(rest)
+				}
+			} else {
+				ms(gaps[rng.Intn(4)])
+			}
+			if r < 4 {
+				r = 3
+			}
+			r++
+			call(r)
+			r++
+			call(r)
+		}
+	case "handover":
+		// hand-over to the sender of the live connection: the sender of connection 1 is held just before its blocking select while
+		// the server closes the connection and the client sees it; the next call dials connection 2 and queues its request; the
+		// old sender wakes with both the request and its shutdown signal ready (Go picks at random); if it takes the request it must
+		// hand it over, and the sender of connection 2 (entering its select later, or already parked) must send it at once
+		a := time.Duration(25+rng.Intn(15)) * time.Millisecond
+		b := a + time.Duration(15+rng.Intn(15))*time.Millisecond
+		if rng.Intn(3) == 0 {
+			b = 0
+		}
+		setDelays(0, map[string]time.Duration{"client.send.beforeSelect#1": a, "client.send.beforeSelect#2": b})
+		call(1)
+		closeNewest()
+		ms(2 + rng.Intn(4))
+		if b == 0 { // two calls at once: one may go to the new sender directly, the other through the old one
+			d2, d3 := bg(2), bg(3)
+			<-d2
+			<-d3
+			r = 3
+		} else {
+			call(2)
+			r = 2
+		}
+		setDelays(0, map[string]time.Duration{})
+		if rng.Intn(2) == 0 {
+			closeNewest()
+			ms(gaps[rng.Intn(4)])
+		}
+		r++
+		call(r)
+	case "overlap":
 		// overlapping calls: the server closes the connection while a request that has passed the sender's liveness check is
 		// still waiting to be written (the sender is held at the hook before conn.Write); a later call, issued after the
 		// client has seen the close, is answered slowly on the new connection while the old sender's write fails
@@ -283,85 +611,110 @@ func ccScenario(rng *rand.Rand, timeout time.Duration) []tr.Ev {
 		srv.mu.Lock()
 		srv.delay[3] = hold + time.Duration(10+rng.Intn(40))*time.Millisecond
 		srv.mu.Unlock()
-		done := make(chan struct{})
-		go func() { call(2); close(done) }()
-		time.Sleep(time.Duration(3+rng.Intn(5)) * time.Millisecond)
+		done := bg(2)
+		ms(3 + rng.Intn(5))
 		closeNewest()
-		time.Sleep(time.Duration(5+rng.Intn(10)) * time.Millisecond)
+		ms(5 + rng.Intn(10))
 		call(3)
 		<-done
 		if rng.Intn(2) == 0 {
 			call(4)
 		}
-		r = 6
-	}
-	if r == 0 && rng.Intn(4) == 0 {
+	case "doubleclose":
 		// two closes in a row while calls are under way: request 2 is caught by the close of connection 1 after its liveness
 		// check (write error -> failure queue); call 3, issued after the client has seen that close, dials connection 2, whose
 		// sender is slow to reach its select; the server closes connection 2 as well; when the sender of connection 2 then
 		// takes request 3 it knows the connection is dead and must hand the request over although the one-slot failure queue is
 		// still occupied by request 2
 		call(1)
-		cc.mu.Lock()
-		cc.delays = map[string]time.Duration{"client.send.dequeued#1": 40 * time.Millisecond, "client.send.beforeSelect#2": 55 * time.Millisecond}
-		cc.delayK = 0
-		cc.mu.Unlock()
-		d2 := make(chan struct{})
-		go func() { call(2); close(d2) }()
-		time.Sleep(5 * time.Millisecond)
+		setDelays(0, map[string]time.Duration{"client.send.dequeued#1": 40 * time.Millisecond, "client.send.beforeSelect#2": 55 * time.Millisecond})
+		d2 := bg(2)
+		ms(5)
 		closeNewest() // connection 1
-		time.Sleep(10 * time.Millisecond)
-		d3 := make(chan struct{})
-		go func() { call(3); close(d3) }()
-		time.Sleep(35 * time.Millisecond)
+		ms(10)
+		d3 := bg(3)
+		ms(35)
 		closeNewest() // connection 2 (if it has been dialled by now)
 		<-d2
 		<-d3
-		r = 6
-	}
-	ncalls := 2 + rng.Intn(3)
-	for i := 0; i < ncalls && r < 6; i++ {
-		r++
-		call(r)
-		if i == ncalls-1 {
-			break
+	default:
+		ncalls := 2 + rng.Intn(3)
+		for i := 0; i < ncalls; i++ {
+			r++
+			call(r)
+			if i == ncalls-1 {
+				break
+			}
+			if rng.Intn(4) != 0 {
+				// the server closes the connection that is in use while the client is idle
+				closeNewest()
+			}
+			ms(gaps[rng.Intn(len(gaps))])
 		}
-		if rng.Intn(4) != 0 {
-			// the server closes the connection that is in use while the client is idle
-			closeNewest()
-		}
-		time.Sleep(time.Duration([]int{0, 1, 5, 30, 200, 1100}[rng.Intn(6)]) * time.Millisecond)
 	}
-	time.Sleep(2 * time.Millisecond)
+	ms(2)
 	cc.mu.Lock()
 	cc.rec = nil
 	cc.mu.Unlock()
+	close(canary.stop)
 	client.Close()
-	ln.Close()
-	srv.mu.Lock()
-	for _, c := range srv.conns {
-		c.Close()
+	srv.shutdown()
+	evs := rec.Close()
+	stall := time.Duration(atomic.LoadInt64(&canary.max))
+	cc.mu.Lock()
+	defer cc.mu.Unlock()
+	if int(stall.Milliseconds()) > ccSt.MaxStall {
+		ccSt.MaxStall = int(stall.Milliseconds())
 	}
-	srv.mu.Unlock()
-	return append(rec.Close(), tr.Ev{"e": "Reset"})
+	if abandoned {
+		ccSt.Abandoned++
+		return nil
+	}
+	if disturbed {
+		ccSt.Dropped++
+		return nil
+	}
+	ccSt.Classes[class]++
+	if timeout < time.Second {
+		ccSt.ShortTO++
+	}
+	for _, e := range evs {
+		switch {
+		case e["e"] == "LiveCheck" && e["live"] == false:
+			ccSt.Handovers++
+		case e["e"] == "SendErr":
+			ccSt.SendErrs++
+		}
+	}
+	return append(evs, tr.Ev{"e": "Reset"})
 }
 
 func clientconnTrace(args []string) error {
 	fs := flag.NewFlagSet("clientconn-trace", flag.ExitOnError)
 	seed := fs.Int64("seed", 1, "seed")
 	num := fs.Int("n", 20, "scenarios")
+	first := fs.Int("first", 0, "number of the first scenario (the class of a scenario is its number modulo the number of classes)")
 	out := fs.String("out", "trace.ndjson", "output")
-	toMs := fs.Int("timeout", 1500, "call timeout in ms")
+	toMs := fs.Int("timeout", 1500, "call timeout in ms of the scenarios that do not use a short one")
+	only := fs.String("class", "", "run this scenario class only (restart, heldrecv, handover, overlap, doubleclose, random)")
+	repeat := fs.Int("repeat", 1, "run every scenario this many times (same script, whatever interleaving the run takes)")
 	fs.Parse(args)
-	rng := rand.New(rand.NewSource(*seed))
 	vhook.Set(ccHook)
 	w, err := tr.Create(*out)
 	if err != nil {
 		return err
 	}
 	for i := 0; i < *num; i++ {
-		for _, ev := range ccScenario(rng, time.Duration(*toMs)*time.Millisecond) {
-			w.Write(ev)
+		for rep := 0; rep < *repeat; rep++ {
+			// the script of a scenario is a function of (seed, number): a run can be repeated
+			rng := rand.New(rand.NewSource(*seed*1000003 + int64(*first+i)))
+			evs := ccScenario(rng, *first+i, time.Duration(*toMs)*time.Millisecond, *only)
+			if evs != nil {
+				w.Write(tr.Ev{"e": "Scenario", "seed": *seed, "idx": *first + i, "class": *only})
+			}
+			for _, ev := range evs {
+				w.Write(ev)
+			}
 		}
 	}
 	if err := w.Close(); err != nil {
@@ -370,6 +723,8 @@ func clientconnTrace(args []string) error {
 	cc.mu.Lock()
 	fmt.Println(*num, cc.hits["client.reconnect.dialed"], cc.hits["client.send.dequeued"], cc.hits["client.close"], cc.hits["client.recv.exit"],
 		cc.hits["client.Send.enqueue"], cc.hits["client.send.tick"])
+	st, _ := json.Marshal(ccSt)
+	fmt.Println("STATS", string(st))
 	cc.mu.Unlock()
 	return nil
 }
